@@ -314,6 +314,7 @@ fn replay(lines: &[String], nfw: usize, nthreads: usize, flavour: &str) -> (usiz
     let mut failures = vec![];
     let mut steps = 0;
     for (bi, line) in lines.iter().enumerate() {
+        vkit::mark(bi);
         let beh: Value = serde_json::from_str(line).expect("behaviour json");
         let base = ledger::snap();
         let mut w = World::new(nfw, nthreads, flavour);
